@@ -44,7 +44,7 @@ def concretise(scs, lits) -> str:
         if ck == "function":
             out += [f"def f{i}({ps}): ...", ""]
         else:
-            recv = {"method": "self", "ctor": "self", "classmethod": "cls", "static": ""}[ck]
+            recv = {"method": "self", "ctor": "self", "classmethod": "cls", "static": "", "starmethod": ""}[ck]
             full = ", ".join(x for x in (recv, ps) if x)
             deco = {"static": "    @staticmethod\n", "classmethod": "    @classmethod\n"}.get(ck, "")
             name = "__init__" if ck == "ctor" else "m"
